@@ -35,6 +35,7 @@ FIXED = {
  "fix: media download of an object marked gzip": ("B4", ["C20"], "media GET of an object marked contentEncoding gzip whose bytes are not gzip panicked (nil gzip reader)", "harness/internal/robust/gcs.go Directed()"),
  "fix: a metadata patch whose body is the JSON value null": ("R2", ["C20"], "PATCH with the body null panicked (nil object)", "harness/internal/robust/gcs.go Directed()"),
  "fix: GetTable, CreateTable and ModifyColumnFamilies return a copy": ("A16b", ["C20"], "schema changes while fetching the schema: the live definition was encoded while ModifyColumnFamilies changed it — fatal 'concurrent map iteration and map write'", "robustmix (concurrent mix child process)"),
+ "fix: rows are not rewritten while a scan over them is in progress": ("A17", ["C14", "C16", "C17"], "btree engine: ModifyColumnFamilies (drop) and the GC pass rewrote rows from inside the scan; with a row count that fills a btree node exactly (31, 47, 63, ... rows inserted in key order) the first rewrite split the node and the scan ended early: the remaining rows kept the dropped family's cells, or were skipped by the pass", "corpus/bt/A17-family-drop-on-a-full-btree-node.json, corpus/bt/A17-gc-pass-on-a-full-btree-node.json"),
  "fix: CreateTable copies the definition for its response before": ("A16c", ["C20"], "CreateTable copied the stored definition for its response after releasing the server lock, while a ModifyColumnFamilies on the new table could already write the family map — concurrent map read and write (data race; fatal when it hits)", "robustmix (concurrent mix child process, -race build): creator/deleter against a modifier of the same table"),
  "fix: page tokens for object names that are not valid UTF-8": ("B5", ["C20", "C11"], "a listing that has to continue after an object whose name is not valid UTF-8 panicked in EncodePageToken (the token is a protobuf string field); found by reading by a sub-agent, reproduced over HTTP: the connection is dropped", "harness/internal/robust/gcs.go Directed()"),
  "fix: the memory store creates and fetches a bucket": ("B11", ["C20"], "memory store: an upload or copy racing a bucket deletion dereferenced a nil bucket", "robustmix (concurrent mix child process)"),
